@@ -50,7 +50,7 @@ var initAllow = map[string]bool{
 func harnessOverlay(withCmd bool) (map[string][]byte, map[string]string, error) {
 	ov := map[string][]byte{}
 	paths := map[string]string{}
-	files, _ := filepath.Glob("/verif/harness/*.go")
+	files, _ := filepath.Glob(harnessBase()+"/harness/*.go")
 	for _, f := range files {
 		b, err := os.ReadFile(f)
 		if err != nil {
@@ -63,12 +63,12 @@ func harnessOverlay(withCmd bool) (map[string][]byte, map[string]string, error) 
 	if withCmd {
 		// the sx prelude of the in-package cmd harnesses is the same file, with
 		// the package clause changed
-		if b, err := os.ReadFile("/verif/harness/sx_prelude.go"); err == nil {
+		if b, err := os.ReadFile(harnessBase()+"/harness/sx_prelude.go"); err == nil {
 			v := filepath.Join(repoDir, "cmd", "zz_vh_sx_prelude.go")
 			ov[v] = []byte(strings.Replace(string(b), "package zzvh", "package cmd", 1))
-			paths[v] = "/verif/harness/sx_prelude.go"
+			paths[v] = harnessBase()+"/harness/sx_prelude.go"
 		}
-		files, _ := filepath.Glob("/verif/harness_cmd/*.go")
+		files, _ := filepath.Glob(harnessBase()+"/harness_cmd/*.go")
 		for _, f := range files {
 			if filepath.Base(f) == "sx_prelude.go" {
 				continue
@@ -175,4 +175,13 @@ func harnessPkgs(l *loaded) []*ssa.Package {
 		ps = append(ps, l.cmdPkg)
 	}
 	return ps
+}
+
+// harnessBase: /verif, or (developer runs only) the directory named by
+// GOSX_HARNESS_BASE holding copies of harness/ and harness_cmd/.
+func harnessBase() string {
+	if d := os.Getenv("GOSX_HARNESS_BASE"); d != "" {
+		return d
+	}
+	return "/verif"
 }
